@@ -22,7 +22,7 @@ def run(s):
     qi = importlib.import_module("cij.io.traditional.qha_input")
     ed = importlib.import_module("cij.io.traditional.elast_dat")
     s.assume("A-PANDAS, A-CLICK", "decimal formatting / float parsing of CPython")
-    s.undecided_part("line structure for arbitrary counts (nv, nq, np), '%12.6f' composed with float() to the written precision, pandas printing and the "
+    s.undecided_part("line structure of the phonon file for arbitrary counts (nv, nq, np) and of static tables with more than 12 rows, '%12.6f' composed with float() to the written precision, pandas printing and the "
                      "fill command: bounded run-time contracts only")
     rnd = random.Random(s.seed)
     tmp = tempfile.mkdtemp(prefix="c17_")
